@@ -480,7 +480,8 @@ func unsetInternal(n trienode.Node, left, right *Path) (bool, error) {
 			n = rn.Children[left.Bit(pos)]
 			pos++
 		default:
-			panic(fmt.Sprintf("%T: invalid node: %v", n, n))
+			// e.g. a value node above the leaf level or a dangling reference: the proof is malformed
+			return false, fmt.Errorf("%T: invalid node in range proof: %v", n, n)
 		}
 	}
 }
@@ -616,7 +617,7 @@ func unset(parent, child trienode.Node, key *Path, pos uint8, removeLeft bool) e
 		// Child is nil, nothing to unset
 		return nil
 	default:
-		panic("it shouldn't happen") // HashNode, ValueNode
+		return fmt.Errorf("%T: invalid node in range proof", cld)
 	}
 }
 
